@@ -111,6 +111,28 @@ def dtype_instances(seed):
         'BlockColumnOperator{wide}': lambda: blocks.BlockColumnOperator({'u': D(s64), 'v': indices.IndexOperator(0, in_structure=s64)}),
         'InverseOperator{wide}': lambda: (D(S((3,), wide)) + core.HomothetyOperator(1 + r32(), S((3,), wide))).I,
     }
+    from furax._base import dense
+
+    def refused_is_fine(make):
+        # a configuration the constructor is expected to refuse (ValueError): nothing to check then
+        def f():
+            try:
+                return make()
+            except ValueError:
+                return None
+        return f
+    table.update({
+        'HWPOperator{QU}': lambda: hwp.HWPOperator(StokesQUPyTree.structure_for((3,), jnp.float32)),
+        'HWPOperator{QU wide}': lambda: hwp.HWPOperator(qu64),
+        'BlockRowOperator{rectangular blocks}': lambda: blocks.BlockRowOperator(
+            [indices.IndexOperator(0, in_structure=s64), indices.IndexOperator(1, in_structure=s64)]),
+        'BlockColumnOperator{rectangular blocks}': lambda: blocks.BlockColumnOperator(
+            [indices.IndexOperator(0, in_structure=s64), D(s64)]),
+        'DenseBlockDiagonalOperator{blocks wider than the data}': lambda: dense.DenseBlockDiagonalOperator(
+            jnp.asarray(rng.uniform(0.5, 1.5, (2, 3)), wide), S((3,), jnp.float32), 'ij,j->i'),
+        'DiagonalOperator{values that would enlarge the input}': refused_is_fine(
+            lambda: diagonal.DiagonalOperator(r32(3, 4), axis_destination=(0, 1), in_structure=S((3,), jnp.float32))),
+    })
     for m in toeplitz.SymmetricBandToeplitzOperator.METHODS:
         table[f'SymmetricBandToeplitzOperator({m}){{wide}}'] = (lambda m=m: toeplitz.SymmetricBandToeplitzOperator(
             jnp.asarray(rng.uniform(0.5, 1.5, 3), wide), S((2, 16), wide), method=m))
@@ -166,7 +188,7 @@ def _instances(seed, only):
     for name, op in all_instances(seed, only):
         yield name, op
     for name, op in dtype_instances(seed):
-        if only and not name.startswith(only):
+        if (only and not name.startswith(only)) or op is None:
             continue
         yield name, op
 
